@@ -13,6 +13,9 @@ import (
 
 	proto "github.com/kubewharf/kubebrain-client/api/v2rpc"
 
+	"github.com/kubewharf/kubebrain/pkg/metrics"
+	kbprom "github.com/kubewharf/kubebrain/pkg/metrics/prometheus"
+
 	"verif/sim/rt"
 	"verif/sim/world"
 )
@@ -35,6 +38,23 @@ func genC20(r *rt.Rand, tier string, idx int) *world.Scenario {
 		sc.Engine = "badger"
 	}
 	sc.Extra = map[string]int64{"real_metrics": 1}
+	if idx%8 == 5 {
+		// component-level class: concurrent first emissions through the real Prometheus wrapper alone
+		sc.Class = "metric-first-emission-race"
+		nt := 2 + r.Intn(4)
+		for c := 0; c < nt; c++ {
+			var cl world.Client
+			n := 3 + r.Intn(8)
+			for i := 0; i < n; i++ {
+				cl.Ops = append(cl.Ops, world.Op{K: "emit", API: []string{"counter", "gauge", "histogram"}[r.Intn(3)], Key: fmt.Sprintf("m%d", r.Intn(3)), Limit: int64(r.Intn(2))})
+			}
+			sc.Clients = append(sc.Clients, cl)
+		}
+		return sc
+	}
+	// a task parked inside the metrics client may hold one of the node's locks (the hub emits under
+	// its lock): the yield at a vector miss is only used by the component-level class
+	sc.Inactive = []string{"prom.vec.miss"}
 	nc := 1
 	if idx%4 == 3 {
 		nc = 2
@@ -66,6 +86,13 @@ func c20Bytes(s string) []byte {
 
 func c20Custom(t *testing.T, sc *world.Scenario, out *Outcome) {
 	const P = "C20"
+	// production metrics: the real Prometheus client on a registry of this run's own
+	kbprom.ResetRegistryForSim()
+	world.RealMetrics = kbprom.NewMetrics()
+	if sc.Class == "metric-first-emission-race" {
+		c20Emissions(t, sc, out)
+		return
+	}
 	w, err := world.New(sc)
 	if err != nil {
 		out.Infra = err.Error()
@@ -343,6 +370,7 @@ func c20Custom(t *testing.T, sc *world.Scenario, out *Outcome) {
 		name := strings.SplitN(bad, ":", 2)[0]
 		out.violate(P, "metric-label-set", "metric-label-set name="+name, "metric emitted with different kinds / label-name sets: %s", bad)
 	}
+	c20MetricPanics(sn.M, out)
 	out.NonTrivial = probeN > 0
 	out.Steps = s.StepNo()
 	out.SimMs = s.SimTime().Milliseconds()
@@ -355,6 +383,75 @@ func c20Custom(t *testing.T, sc *world.Scenario, out *Outcome) {
 	for name := range sn.M.Shapes {
 		out.probe("metric:" + name)
 	}
+}
+
+// c20MetricPanics: a panic inside the real metrics client is a node crash in production
+func c20MetricPanics(m *world.RecMetrics, out *Outcome) {
+	for _, p := range m.Panics {
+		name := strings.SplitN(p, ":", 2)[0]
+		out.violate("C20", "metric-emission-panic", "metric-emission-panic name="+name, "the production metrics client panicked while emitting %s", p)
+	}
+}
+
+// c20Emissions drives the production metrics wrapper alone: several tasks emit the same few metric
+// names for the first time, the scheduler deciding who passes the vector-miss point when. Each name
+// always comes with one kind and one label-name set, so no emission may panic and every emission
+// must be counted.
+func c20Emissions(t *testing.T, sc *world.Scenario, out *Outcome) {
+	w, err := world.New(sc)
+	if err != nil {
+		out.Infra = err.Error()
+		return
+	}
+	defer w.Teardown()
+	s := w.S
+	m := world.NewRecMetrics(world.RealMetrics)
+	done := 0
+	for ci := range sc.Clients {
+		ci := ci
+		s.Go(fmt.Sprintf("emitter%d", ci), -1, func() {
+			for _, op := range sc.Clients[ci].Ops {
+				s.Yield("emit.step")
+				// kind and label names are a function of the metric name: a consistent program
+				name := op.API + "." + op.Key
+				tags := []metrics.T{metrics.Tag("method", fmt.Sprint(op.Limit))}
+				if op.Key == "m0" {
+					tags = nil
+				}
+				out.probe("emit-" + op.API)
+				switch op.API {
+				case "counter":
+					m.EmitCounter(name, 1, tags...)
+				case "gauge":
+					m.EmitGauge(name, 1, tags...)
+				default:
+					m.EmitHistogram(name, 1, tags...)
+				}
+			}
+			done++
+		})
+	}
+	s.Settle()
+	for steps := 0; steps < 20000 && done < len(sc.Clients); steps++ {
+		if !s.Step() {
+			s.Advance(100 * time.Millisecond)
+		}
+	}
+	if done < len(sc.Clients) {
+		out.violate("C20", "request-never-returned", "emission-never-returned", "metric emitters did not finish: %v", stuckTasks(w))
+	}
+	c20MetricPanics(m, out)
+	if s.SiteHits["prom.vec.miss"] > 0 {
+		out.probe("vector-miss-yield")
+	}
+	out.NonTrivial = true
+	out.Steps = s.StepNo()
+	out.SimMs = s.SimTime().Milliseconds()
+	out.Hash = s.Hash()
+	out.Hazards = s.Hazards
+	out.SiteHits = s.SiteHits
+	out.Ops = done
+	out.Trace = s.Trace
 }
 
 func stuckOf(w *world.World) string { return strings.Join(stuckTasks(w), " ") }
